@@ -201,6 +201,9 @@ def step (w : World) (line : String) : World × String :=
         | none => bad
       | "k.dirty" => match parseHex a with
         | some b => ({ w with k := w.k.set! i (kOfRaw b) }, "ok") | none => bad
+      | "p.dirty" => match parseHex a with
+        | some _ => (w, "ok")     -- arbitrary prior contents of a PRNG object: init overwrites every byte, so the model ignores them
+        | none => bad
       | "p.script" => match parseList parseDelivery a with
         | some ds => ({ w with ps := w.ps.set! i ds }, "ok") | none => bad
       | "p.init" => match parseHex a with
